@@ -42,6 +42,16 @@ RULE = (
     "raised; distinct = distinct (metadata of the target class, keyword names, value kinds, outcome)."
 )
 EXHAUSTIVE = {"quick": False, "thorough": False}
+OPEN_STATEMENTS = [
+    "ctor_resolves_full (wfCore only) is FALSE on the real code: KF-C09-diamond-second-parent; Lean witness ctor_resolves_full_fails",
+    "key_required_iff_no_default_full (wfCore only) is FALSE on the real code: KF-C09-plain-subclass-key-default; Lean witness key_required_iff_no_default_full_fails",
+    "bootstrapMeta (for_class + bootstrap) is not the subject of a theorem: wfCall states the relation between metadata and declared table "
+    "that the constructor theorems need; the driver evaluates it on the model's metadata for every call and the harness on the REAL metadata",
+    "no totality theorem: the theorems are conditional on `construct ... = (s, none)`; non-vacuity by decided examples and by the "
+    "successful wf=1 calls of every run (histogram outcome:wf=1:gen=1:ok)",
+    "values routed through a hand-written parent constructor (prepared f(v)) are validated by correspondence and oracle only; "
+    "owner_ctor_called_once and post_init_once_last do cover hand-written parents",
+]
 ASSUMPTIONS = [
     "the MRO of every class is an input of the model (C3 linearisation is CPython's; the harness reads cls.__mro__)",
     "the annotation and the preparer of an attribute name are the same wherever the name is declared in one hierarchy",
@@ -1040,10 +1050,15 @@ def tags(case, real):
             t.append(f"decl:{d['kind']}{'' if d['ann'] else '-unannotated'}{'' if d.get('init', True) else '-noninit'}"
                      f"{'-factory' if d.get('factory') is not None else ''}")
     n_fixed = 1 + len(case["classes"])
+    dia, pk = _diamond_targets(case), _plain_key_targets(case)
     for i, call in enumerate(case["calls"]):
         if n_fixed + i < len(real):
             head = real[n_fixed + i].split(" ;; ")[0]
             t.append("outcome:" + head.replace(" ", ":"))
+            if head.startswith("wf=0"):
+                # why the theorems do not cover this call
+                t.append("wf0:" + ("diamond-finding" if call["cls"] in dia else "plain-key-finding" if call["cls"] in pk
+                                   else "reading-or-default-after-owner"))
         t.append(f"kw:{len(call['kw'])}")
         if call["pos"]:
             t.append("call:positional")
